@@ -364,7 +364,7 @@ func c17(ctx *run.Ctx) {
 	small8 := []int8{-3, -2, -1, 0, 1, 2, 3, 4}
 	smallf := []float64{-1.5, -0.5, 0, 0.25, 0.5, 1, 2, 3}
 
-	batches := ctx.Pick(8, 80)
+	batches := ctx.Pick(8, 400)
 	nh := ctx.Pick(60, 250)
 	maxOps := ctx.Pick(120, 400)
 	for b := 0; b < batches; b++ {
@@ -379,7 +379,7 @@ func c17(ctx *run.Ctx) {
 		ctx.Case(fmt.Sprintf("bst/float64small/%d", b), func(cc *run.Case) { bstRandom(cc, "float64", smallf, nh, maxOps) })
 	}
 	// Exhaustive small scope: every history of length <= L over 3 letters.
-	maxL := ctx.Pick(5, 6)
+	maxL := ctx.Pick(5, 7)
 	for L := 1; L <= maxL; L++ {
 		for first := 0; first < 9; first++ {
 			L, first := L, first
